@@ -469,6 +469,22 @@ def classify_while(fa: FuncAnalysis, st: ast.While):
                    and unparse(s.func.value) == cont and s.func.attr in ("add", "append", "update", "extend", "insert")]
         if counters and rebuilt and not mutated:
             return "fresh-name", f"`{nm}` is rebuilt from a strictly increasing counter; `{cont}` is finite and not modified"
+    # (ii') fresh-name search by growth: `while name in C [and ...]: name += "<non-empty literal>"`
+    first = test.values[0] if isinstance(test, ast.BoolOp) and isinstance(test.op, ast.And) else test
+    if isinstance(first, ast.Compare) and len(first.ops) == 1 and isinstance(first.ops[0], ast.In) \
+            and isinstance(first.left, ast.Name):
+        nm = first.left.id
+        cont = unparse(first.comparators[0])
+        grows = [s for s in body if isinstance(s, ast.AugAssign) and isinstance(s.target, ast.Name) and s.target.id == nm
+                 and isinstance(s.op, ast.Add) and isinstance(s.value, ast.Constant) and isinstance(s.value.value, str)
+                 and s.value.value]
+        mutated = [s for s in walk_shallow(ast.Module(body=body, type_ignores=[]))
+                   if isinstance(s, ast.Call) and isinstance(s.func, ast.Attribute)
+                   and unparse(s.func.value) == cont and s.func.attr in ("add", "append", "update", "extend", "insert", "setdefault")]
+        stores = [s for s in walk_shallow(ast.Module(body=body, type_ignores=[]))
+                  if isinstance(s, ast.Assign) and any(isinstance(t, ast.Subscript) and unparse(t.value) == cont for t in s.targets)]
+        if grows and len(grows) == len(body) and not mutated and not stores:
+            return "fresh-name", f"`{nm}` grows by a non-empty literal each iteration; `{cont}` is finite and not modified in the loop"
     # (v) structural walk  `x = x.__origin__`
     walked = [s for s in body if isinstance(s, ast.Assign) and len(s.targets) == 1
               and isinstance(s.targets[0], ast.Name) and isinstance(s.value, ast.Attribute)
